@@ -181,20 +181,23 @@ func appendValKey(b []byte, v Value, vars map[*smt.Term]bool) []byte {
 
 // exploreCallee runs fn on all its paths under the context conjuncts, on the auxiliary solver.
 func (e *Engine) exploreCallee(fn *ssa.Function, args []Value, env []Value, site ssa.CallInstruction, ctxConj []*smt.Term) []outcome {
-	if e.solver2 == nil {
+	// one auxiliary solver process per nesting level of summarised calls: a nested exploration
+	// must not disturb the scopes of the exploration it is called from
+	for len(e.auxSolvers) <= e.mergedDepth {
 		s2, err := smt.NewSolver(e.cfg.SolverKind, e.cfg.SolverTimeout)
 		if err != nil {
 			e.abort(abortEngine, "cannot start auxiliary solver: "+err.Error())
 		}
-		e.solver2 = s2
+		e.auxSolvers = append(e.auxSolvers, s2)
 	}
+	aux := e.auxSolvers[e.mergedDepth]
 	m1, m2, m3 := len(e.undo), len(e.mapUndo), len(e.chanUndo)
 	savedDec, savedPos, savedWork := e.decisions, e.pos, e.newWork
 	savedBind, savedPC, savedAsserted, savedSolver := e.bind, e.pc, e.asserted, e.solver
 	savedStack, savedDepth := len(e.stack), e.depth
 	nInputs := len(e.inputs)
 	e.mergedDepth++
-	e.solver = e.solver2
+	e.solver = aux
 	base := append([]*smt.Term{}, ctxConj...)
 	startPC := len(base)
 
@@ -244,6 +247,29 @@ func (e *Engine) exploreCallee(fn *ssa.Function, args []Value, env []Value, site
 			outs = append(outs, outcome{cond: cond, panic: ab.msg})
 		default:
 			fatal = ab
+		}
+	}
+	// completeness of the summary: under the context, the outcome conditions must cover
+	// every argument value (guards against a lost callee path)
+	if fatal == nil {
+		var conds []*smt.Term
+		for _, o := range outs {
+			conds = append(conds, o.cond)
+		}
+		aux.Push()
+		for _, c := range base {
+			aux.Assert(c)
+		}
+		r := aux.Check(e.ctx.Not(e.ctx.Or(conds...)))
+		if r == smt.Sat {
+			aux.EndCheck()
+		}
+		for aux.Level() > 0 {
+			aux.Pop()
+		}
+		aux.Lost = false
+		if r != smt.Unsat {
+			fatal = &pathAbort{abortEngine, "summary of " + fnKey(fn) + " does not cover all argument values (" + r.String() + ")"}
 		}
 	}
 	e.mergedDepth--
